@@ -34,7 +34,15 @@ THEOREMS = [
     "PorepyVerif.C13.checkSolves_iff",
     "PorepyVerif.C13.driver_lin_ok",
     "PorepyVerif.C13.admissible_no_elimination",
+    "PorepyVerif.C13.cert_unisolvent",
+    "PorepyVerif.C13.cert_solution2",
+    "PorepyVerif.C13.GridS.mpsa2d_regions_unisolvent",
+    "PorepyVerif.C13.GridS.mpsa2d_linear_exact",
+    "PorepyVerif.C13.GridS.mpsa2d_nonneumann_exact",
+    "PorepyVerif.C13.GridS.mpsa2d_rigid_motion_zero_traction",
+    "PorepyVerif.C13.GridS.apply_eq",
 ]
+LEAN_DIRS = ["C11"]  # Model/Lemmas import C11's Gauss-Jordan elimination and certificate lemmas
 LEAN_MODULES = ["PorepyVerif.C13.Props"]
 AUDIT = "PorepyVerif/C13/Audit.lean"
 DRIVER = "PorepyVerif/C13/Driver.lean"
@@ -59,11 +67,24 @@ TRUSTED = [
     "(sub-face normals, continuity points, cell centres, volume shares, the Neumann elimination flag) from grid topology with its own code",
     "binary64 rounding: comparisons use relative tolerance 1e-8 against a scale derived from the inputs",
 ]
-EXPLANATION = ("CORE (partial): abstract, dimension-generic theorem about one interaction region (G = A satisfies every row of the weakly symmetric "
-               "local system; with a uniquely solvable system the sub-face traction is sigma(A) n; translations and rotations give zero traction; "
-               "Dirichlet reconstruction exact; eliminated Neumann rows are consistent iff casym(A) n = 0, which is why the property restricts the "
-               "Neumann sets) + executable per-region check over Q + oracle on the real matrices. The assembly of the regions by the vectorised code "
-               "and the inversion are bridged by the correspondence check, not proved.")
+EXPLANATION = ("CORE (partial). (1) Abstract, dimension-generic theorems about one interaction region (G = A satisfies every row of the weakly "
+               "symmetric local system; with a uniquely solvable system the sub-face traction is sigma(A) n; translations and rotations give zero "
+               "traction; Dirichlet reconstruction exact; eliminated Neumann rows are consistent iff casym(A) n = 0, which is why the property "
+               "restricts the Neumann sets). (2) mpsa2d: an executable Lean model of the WHOLE 2-D discretisation (regions built from face_nodes / "
+               "cell_faces, local matrices, exact Gauss-Jordan with a re-checked left inverse, assembly of stress, bound_stress, "
+               "bound_displacement_cell/face) with theorem mpsa2d_linear_exact: for every well-formed 2-D grid whose regions are all certified "
+               "nonsingular the assembled matrices applied to a linear field and its boundary data give the exact traction on every non-Neumann "
+               "face (every face whose nodes have no eliminated rows) and the exact boundary displacement - the hypothesis Unisolvent is discharged "
+               "per instance by the certificate (cert_unisolvent). The model's four matrices are compared entry-wise with the real ones on small "
+               "2-D grids. 3-D: region theorems + per-region tie + oracle. Outside the proofs: that the vectorised numpy code computes what the model "
+               "computes (bridged by the correspondence check), floating point. "
+               "FINDING (open, key singular-local-system-silent-garbage): the property says 'for any 2D or 3D grid', but there are valid, well-shaped "
+               "grids (Delaunay corner whose two cell centres are collinear with the two boundary face centres) on which a local system is exactly "
+               "singular - the Lean model returns certs = none on this configuration (example in Props.lean). No discretisation can satisfy the "
+               "property there, so grids with a singular local system are outside the claim; an explicit exception of Mpsa.discretize is accepted. "
+               "What IS a defect of the code: depending on rounding the block inverters do not fail but return a meaningless inverse, and "
+               "Mpsa.discretize silently delivers wrong matrices (traction errors O(1)..1e16). That is recorded as the finding; repair: verify the "
+               "inversion residual and raise (fixes/C13-singular-local-system.diff).")
 ASSUMPTIONS = ["each local system is uniquely solvable (hypothesis Unisolvent of the exactness theorems; observed on the real code). Grids on which "
                "the MODEL's local matrix of some node, assembled by the harness from geometry alone, has condition number > 1e7 are outside the "
                "claim (MPSA is undefined there; example: corpus/C13/07-*.json, Mpsa.discretize raises on it) - the generator redraws them and "
@@ -95,6 +116,9 @@ def build_grid(gs):
         r = random.Random(gs["pseed"])
         pts = [(0.0, 0.0), (phys[0], 0.0), (phys[0], phys[1]), (0.0, phys[1])]
         seen = set()
+        for q in gs.get("pts", []):  # explicit interior points, in sixteenths of the extent
+            seen.add(tuple(q))
+            pts.append((phys[0] * q[0] / 16, phys[1] * q[1] / 16))
         while len(pts) < 4 + gs["npts"]:
             p = (r.randrange(1, 16), r.randrange(1, 16))
             if p in seen:
@@ -219,6 +243,8 @@ def gen_case(rng, tier):
     if dim == 3:
         k = 4 if not big else 8
         case["tie_nodes"] = sorted(rng.sample(range(g.num_nodes), min(k, g.num_nodes)))
+    if dim == 2 and g.num_cells <= (9 if not big else 12) and rng.random() < (0.45 if not big else 0.3):
+        case["grid_tie"] = True  # whole-grid tie: the Lean model assembles all four matrices itself
     if degenerate(case):  # a local system of the model itself is singular: no claim (hypothesis Unisolvent); draw another case
         return gen_case(rng, tier)
     return case
@@ -303,7 +329,12 @@ def oracle(case):
     cls = f"{d}d-{case['grid']['kind']}-{'alldir' if not case['neu'] else 'mixed'}"
     r = _oracle_checks(case, s, cls)
     if r is not None and degenerate(case):
-        return None  # the model's own local system is singular here (Unisolvent fails): the property makes no claim
+        # The model's own local system is singular here (Unisolvent fails, MPSA is undefined on this grid).  An explicit
+        # refusal (exception) is acceptable; matrices that are silently meaningless are not.
+        if r["key"].startswith("discretize-raises"):
+            return None
+        return {"what": "singular local MPSA system (valid grid, degenerate for the method) is not detected: Mpsa.discretize returns "
+                        "meaningless matrices without an error; " + r["what"], "key": "singular-local-system-silent-garbage"}
     return r
 
 
@@ -510,6 +541,86 @@ def _fl(v):
     return [frac(float(x)) for x in v]
 
 
+MAT_KEYS = ("stress", "bound_stress", "bound_displacement_cell", "bound_displacement_face")
+
+
+def _grid_op(case, s):
+    """The whole 2-D grid as the code sees it (topology arrays, geometry arrays, boundary types)."""
+    from porepy.numerics.fv import _fvutils
+
+    g = s["g"]
+    fn = g.face_nodes.tocsc()
+    cf = g.cell_faces.tocsr()
+    fcs = []
+    for f in range(g.num_faces):
+        row = cf.getrow(f)
+        order = np.argsort(row.indices)
+        fcs.append([[int(row.indices[k]), frac(float(row.data[k]))] for k in order])
+    eta = s["eta"] if s["eta"] is not None else _fvutils.determine_eta(g)
+    return {"op": "grid", "nodes": [_fl(g.nodes[:2, v]) for v in range(g.num_nodes)],
+            "face_nodes": [[int(x) for x in fn.indices[fn.indptr[f]:fn.indptr[f + 1]]] for f in range(g.num_faces)],
+            "face_cells": fcs, "cell_centers": [_fl(g.cell_centers[:2, c]) for c in range(g.num_cells)],
+            "face_centers": [_fl(g.face_centers[:2, f]) for f in range(g.num_faces)],
+            "face_normals": [_fl(g.face_normals[:2, f]) for f in range(g.num_faces)],
+            "vol_share": _fl(g.cell_volumes / g.num_cell_nodes()),
+            "is_dir": [s["names"].get(f, "int") == "dir" for f in range(g.num_faces)],
+            "eta": frac(eta), "lam": case["lam"], "mu": case["mu"], "A": case["A"], "b": case["b"]}
+
+
+def _mat_scales(s):
+    """Entry scales of the four matrices, from the inputs only."""
+    g = s["g"]
+    cf = g.cell_faces.tocoo()
+    hmin = float(np.linalg.norm(g.face_centers[:, cf.row] - g.cell_centers[:, cf.col], axis=0).min())
+    diam = float(np.linalg.norm(g.nodes.max(axis=1) - g.nodes.min(axis=1)))
+    st = (s["lam"] + 2 * s["mu"]) * float(g.face_areas.max()) / hmin
+    su = 1.0 + diam / hmin
+    return {"stress": st, "bound_stress": max(st, su), "bound_displacement_cell": su,
+            "bound_displacement_face": max(su, su * hmin / ((s["lam"] + 2 * s["mu"]) * float(g.face_areas.min())))}
+
+
+def _grid_impl(case, s, M):
+    d, nf = 2, s["g"].num_faces
+    sc = _mat_scales(s)
+    st_lin, su_lin = _scales(s)
+    u, bcv = s["uc"].ravel("F"), s["bcv"].ravel("F")
+    t = M["stress"] @ u + M["bound_stress"] @ bcv
+    ub = M["bound_displacement_cell"] @ u + M["bound_displacement_face"] @ bcv
+    out = {"flags": {"wf": True, "admissible": True, "certified": True},
+           "lin_traction": [float(x) / st_lin for x in t], "lin_disp": [float(x) / su_lin for x in ub]}
+    for k in MAT_KEYS:
+        out[k] = (M[k].toarray() / sc[k]).tolist()
+    return out
+
+
+def _grid_model(case, s, o):
+    if "err" in o:
+        return {"driver_error": o}
+    flags = {k: o.get(k) for k in ("wf", "admissible", "certified")}
+    if not o.get("certified"):
+        return {"flags": flags}
+    g = s["g"]
+    nf = g.num_faces
+    sc = _mat_scales(s)
+    st_lin, su_lin = _scales(s)
+
+    def dense(cols, which):
+        a = np.zeros((2 * nf, len(cols)))
+        for j, col in enumerate(cols):
+            for f in range(nf):
+                for i in range(2):
+                    a[2 * f + i, j] = float(Fraction(col[which][f][i]))
+        return a
+
+    out = {"flags": flags,
+           "lin_traction": [float(Fraction(x)) / st_lin for v in o["lin"][0] for x in v],
+           "lin_disp": [float(Fraction(x)) / su_lin for v in o["lin"][1] for x in v]}
+    for k, cols, which in (("stress", o["cellcols"], 0), ("bound_stress", o["facecols"], 0),
+                           ("bound_displacement_cell", o["cellcols"], 1), ("bound_displacement_face", o["facecols"], 1)):
+        out[k] = (dense(cols, which) / sc[k]).tolist()
+    return out
+
+
 def model_ops(case):
     try:
         if degenerate(case):
@@ -536,6 +647,8 @@ def model_ops(case):
                     "hooks": [{"i": h["i"], "n": _fl(h["n"]), "elim": h["elim"]} for h in R["hooks"]],
                     "A": case["A"], "b": case["b"],
                     "u": [_fl(P["u"][:, c]) for c in R["cells"]], "G": [[_fl(row) for row in P["G"][k]] for k in R["ks"]]})
+    if case.get("grid_tie"):
+        ops.append(_grid_op(case, s))
     return ops
 
 
@@ -569,6 +682,8 @@ def impl_run(case):
         M = _discretize(s, case)
         t = (M["stress"] @ s["uc"].ravel("F") + M["bound_stress"] @ s["bcv"].ravel("F")).reshape((s["d"], -1), order="F")
         out["face_traction"] = [[float(x) / st_lin for x in t[:, f]] for f in range(s["g"].num_faces)]
+        if case.get("grid_tie"):
+            out["grid"] = _grid_impl(case, s, M)
     return out
 
 
@@ -600,6 +715,8 @@ def model_decode(outs, case):
     out = {"regions": regs}
     if case.get("tie_nodes") is None:
         out["face_traction"] = [[float(x) / st_lin for x in face[:, f]] for f in range(s["g"].num_faces)]
+        if case.get("grid_tie"):
+            out["grid"] = _grid_model(case, s, outs[len(P["regs"])])
     return out
 
 
@@ -625,6 +742,7 @@ def signature(case):
     c = dict(case)
     c.pop("rseed", None)
     c.pop("tie_nodes", None)
+    c.pop("grid_tie", None)
     return json.dumps(c, sort_keys=True)
 
 
@@ -674,6 +792,7 @@ def stats(cases, impl_outs):
     bcs = Counter("alldir" if not c["neu"] else "mixed" for c in cases)
     regs = [r for o in impl_outs if isinstance(o, dict) and "regions" in o for r in o["regions"]]
     return {"grids": dict(kinds), "fields": dict(fields), "boundary": dict(bcs),
+            "whole_grid_ties_4_matrices_entrywise": sum(1 for c in cases if c.get("grid_tie")),
             "no_claim_singular_local_system": sum(1 for c in cases if degenerate(c)),
             "perturbed": sum(1 for c in cases if c["grid"].get("pert", "0") != "0"),
             "eta_nondefault": sum(1 for c in cases if c.get("eta") is not None),
